@@ -252,6 +252,8 @@ def run_read_dets(R, args):
         posts.append(z3.BoolVal(len(keys) <= nread))
         R.check(f"roundtrip/path{k}", pre + pc + [z3.Not(z3.And(*posts))], concrete)
     R.res["paths"] = k
+    if getattr(ex, "unproved_failures", 0):
+        R.res["inconclusive"].append(f"{ex.unproved_failures} path(s) admitted after an unknown feasibility query ended in an exception of the code under test")
 
 
 class FakeFCI:
@@ -308,6 +310,8 @@ def run_fci_state(R, args):
             posts.append(z3.Sum([z3.If(absz[m] > absz[j], 1, 0) for m in range(len(dets))]) == pos)
         R.check(f"ordered_state/path{k}", pre + pc + [z3.Not(z3.And(*posts))], concrete)
     R.res["paths"] = k
+    if getattr(ex, "unproved_failures", 0):
+        R.res["inconclusive"].append(f"{ex.unproved_failures} path(s) admitted after an unknown feasibility query ended in an exception of the code under test")
 
 
 def cases(tier):
